@@ -168,35 +168,43 @@ def check_none_default_compare(ctx, res: Result, dotted: str, rule="N-NONECMP"):
             res.ok(rule, f, f"no ordering comparison of `{p}`", p, loc(fi, fi.node))
 
 
-def _none_tested_before(v, cmp_node, p) -> bool:
+def _none_atom_labels(test, p):
+    """[(atom, label)]: out-edges of `test` on which `p` is known not to be None"""
     from .rules_container import _atoms, _implied_branch
 
+    out = []
+    for atom, _ in _atoms(test, True):
+        if isinstance(atom, ast.Compare) and len(atom.ops) == 1 and isinstance(atom.left, ast.Name) and atom.left.id == p and isinstance(atom.comparators[0], ast.Constant) and atom.comparators[0].value is None and isinstance(atom.ops[0], (ast.Is, ast.IsNot)):
+            want_true = isinstance(atom.ops[0], ast.IsNot)
+            lab = _implied_branch(test, atom, want_true)
+            if lab:
+                out.append((atom, lab))
+    return out
+
+
+def _none_tested_before(v, cmp_node, p) -> bool:
     cid = v.cfg_id(cmp_node)
-    # (a) same boolean expression: `p is not None and p < 0`
-    par = v.parent.get(id(cmp_node))
+    # (a) short-circuit inside one boolean expression: `p is not None and p < 0`, `not (p is None) and ...`,
+    #     `p is None or p < 0`
+    child = cmp_node
+    par = v.parent.get(id(child))
     while par is not None and isinstance(par, (ast.BoolOp, ast.UnaryOp)):
-        if isinstance(par, ast.BoolOp) and isinstance(par.op, ast.And):
-            idx = [i for i, x in enumerate(par.values) if cmp_node in list(ast.walk(x))]
+        if isinstance(par, ast.BoolOp):
+            idx = [i for i, x in enumerate(par.values) if x is child]
             for x in par.values[: idx[0] if idx else 0]:
-                if norm(x) in (f"{p} is not None",):
+                # the later operand is evaluated only when x was True (and) / False (or)
+                need = "T" if isinstance(par.op, ast.And) else "F"
+                if any(lab == need for _, lab in _none_atom_labels(x, p)):
                     return True
+        child = par
         par = v.parent.get(id(par))
     # (b) dominated by a branch on which p is known not None
     for n in walk_no_nested(v.fi.node):
         if isinstance(n, (ast.If, ast.While)):
-            for atom, _ in _atoms(n.test, True):
-                if isinstance(atom, ast.Compare) and len(atom.ops) == 1 and isinstance(atom.left, ast.Name) and atom.left.id == p and isinstance(atom.comparators[0], ast.Constant) and atom.comparators[0].value is None:
-                    want_true = isinstance(atom.ops[0], ast.IsNot)
-                    lab = _implied_branch(n.test, atom, want_true)
-                    tid = v.cfg.by_ast[id(n.test)]
-                    if lab and tid != cid and v.cfg.branch_dominated(tid, lab, cid):
-                        return True
-                    # the comparison sits in the same test, after the None atom of a conjunction
-                    if tid == cid and isinstance(n.test, ast.BoolOp) and isinstance(n.test.op, ast.And):
-                        vals = n.test.values
-                        ia = [i for i, x in enumerate(vals) if atom in list(ast.walk(x))]
-                        ic = [i for i, x in enumerate(vals) if cmp_node in list(ast.walk(x))]
-                        if ia and ic and ia[0] < ic[0] and want_true:
-                            return True
-    # (c) early exit: `if p is None: raise/return` before
+            tid = v.cfg.by_ast.get(id(n.test))
+            if tid is None or tid == cid:
+                continue
+            for _, lab in _none_atom_labels(n.test, p):
+                if v.cfg.branch_dominated(tid, lab, cid):
+                    return True
     return False
